@@ -103,27 +103,26 @@ Inductive version := Repaired | PreFix.
 Definition index_cells (ver : version) (buf : buffer) (off : nat) : buffer :=
   match ver with Repaired => firstn off buf | PreFix => buf end.
 
+(* the part of the index buffer that is converted to row indices (final_index_array[...] before .astype);
+   this is the ONLY place where the buffer is built, subsample_gen below reads these cells and nothing else *)
+Definition index_buffer (ver : version) (X : list Z) (r : Q) (fvals : list Z) : result buffer :=
+  let fs := final_space_size r (length X) in
+  let q := fs / length fvals in
+  bind (fill X q fvals (repeat Garbage fs) 0) (fun bo => Ok (index_cells ver (fst bo) (snd bo))).
+
 Definition subsample_gen (ver : version) (g : nat -> Z) (Y X : list Z) (r : Q) (fvals : list Z)
   : result (list Z * list Z) :=
   let fs := final_space_size r (length X) in
   let q := fs / length fvals in
   if q =? 0 then Ok (Y, X) else
-  bind (fill X q fvals (repeat Garbage fs) 0) (fun bo =>
-  let idx := read_buffer g (index_cells ver (fst bo) (snd bo)) in
+  bind (index_buffer ver X r fvals) (fun cells =>
+  let idx := read_buffer g cells in
   bind (mapM (get_row X) idx) (fun X' =>
   bind (mapM (get_row Y) idx) (fun Y' => Ok (Y', X')))).
 
 (* stratified_subsampling(Y, X, r, f_values) as called by the estimator *)
 Definition subsample (g : nat -> Z) (Y X : list Z) (r : Q) : result (list Z * list Z) :=
   subsample_gen Repaired g Y X r (f_values X).
-
-(* the cells of the buffer the repaired code converts to row indices (None-free version of the state named in
-   the property's anchors: "index buffer of the sampled rows") *)
-Definition used_cells (X : list Z) (r : Q) : result buffer :=
-  let fs := final_space_size r (length X) in
-  let q := quota X r in
-  if q =? 0 then Ok [] else
-  bind (fill X q (f_values X) (repeat Garbage fs) 0) (fun bo => Ok (firstn (snd bo) (fst bo))).
 
 (* ---- the rows the property says are used -------------------------------------------------------------- *)
 Definition sampled_indices (X : list Z) (r : Q) : list nat :=
